@@ -395,10 +395,29 @@ def check(run: Run) -> None:
         if isinstance(n, ast.Assign) and any(isinstance(t, ast.Tuple) and t.elts and isinstance(t.elts[0], ast.Name) and t.elts[0].id == "doc" for t in n.targets):
             binds.append(n)
     okb = bool(binds)
+    GOOD = ("parse", "parse_with_warnings", "repair", "self._apply_changes", "self._localized_salvage")
+
+    def fresh(v: ast.AST, depth: int = 0) -> bool:
+        # a call of one of the readers / gated in-place steps, or a local every binding of which is such a call (or None)
+        if isinstance(v, ast.Call):
+            return ast.unparse(v.func) in GOOD
+        if isinstance(v, ast.Name) and depth < 4:
+            ds = []
+            for a in walk_no_nested(ex.node):
+                if isinstance(a, ast.Assign):
+                    for t in a.targets:
+                        if isinstance(t, ast.Name) and t.id == v.id:
+                            ds.append(a.value)
+                        elif isinstance(t, ast.Tuple) and t.elts and isinstance(t.elts[0], ast.Name) and t.elts[0].id == v.id:
+                            ds.append(a.value)
+            real = [d for d in ds if not (isinstance(d, ast.Constant) and d.value is None)]
+            return bool(real) and all(fresh(d, depth + 1) for d in real)
+        return False
+
     for b in binds:
         v = b.value
         src = ast.unparse(v.func) if isinstance(v, ast.Call) else None
-        good = src in ("parse", "parse_with_warnings", "repair", "self._apply_changes", "self._localized_salvage")
+        good = src in GOOD or fresh(v)
         okb = okb and good
         if not good:
             run.violation("R18.7", wm, ex.qualname, b, "the document being amended is obtained from something other than a fresh parse of the file's content (or the gated in-place steps)")
